@@ -122,7 +122,8 @@ func commands(m *mode) []consoleui.Command {
 
 			var line int = -1
 			offset := m.view.Cursor.Value()
-			for i := offset + 1; i != offset; i = (i + 1) % m.view.Lines.Len() {
+			ln := m.view.Lines.Len()
+			for i := (offset + 1) % ln; i != offset; i = (i + 1) % ln {
 				if regexp.MatchString(m.view.Lines.Index(i).String()) {
 					line = i
 					break
